@@ -1,7 +1,9 @@
 (* C18 — simpleTAL never lets data become markup, code or leftover state.
    Property theorems only. *)
 From Coq Require Import String.
-From PG Require Import Lib.Str Model.TALProg Model.TALProgSpec Model.TALVM Proofs.TALVMFacts.
+From PG Require Import Lib.Str Lib.HtmlEsc Model.TALProg Model.TALProgSpec Model.TALVM Proofs.TALVMFacts
+                       Model.TALCompile Proofs.TALCompileFacts Model.TALOut Proofs.TALOutFacts
+                       Model.TALESEval Proofs.TALESEvalFacts.
 Local Open Scope N_scope.
 
 (* After any expansion the caller's context is what it was: for EVERY structurally well-formed
@@ -37,12 +39,11 @@ Print Assumptions C18_globals_only_explicit.
 (* non-vacuity: the real program of <p tal:define="x a; global g b" tal:repeat="i l" tal:content="i">d</p>
    is well formed, and a run with a three-item sequence terminates with the context restored
    (the define pushes the locals once, the repeat once more; both are popped) *)
-Definition ex_prog : program :=
-  [CStartScope [] []; CDefine [(true, (lit "x"%string, lit "a"%string)); (false, (lit "g"%string, lit "b"%string))];
-   CRepeat (lit "i"%string) (lit "l"%string) 2%nat; CContent false false (lit "i"%string) 2%nat;
-   CStartTag (lit "p"%string) false; COutput (lit "d"%string); CEndTagEndScope (lit "p"%string) false false].
-
 Example C18_example :
+  let ex_prog :=
+    [CStartScope [] []; CDefine [(true, (lit "x"%string, lit "a"%string)); (false, (lit "g"%string, lit "b"%string))];
+     CRepeat (lit "i"%string) (lit "l"%string) 2%nat; CContent false false (lit "i"%string) 2%nat;
+     CStartTag (lit "p"%string) false; COutput (lit "d"%string); CEndTagEndScope (lit "p"%string) false false] in
   wf_program ex_prog [(2%nat, 6%nat)] [] = true /\
   match vm_run ex_prog [(2%nat, 6%nat)] [] unit (fun _ _ => true) (fun _ _ => RLoop 2) (fun _ _ => VValue)
                (fun _ _ => MOther) (fun d _ _ => d) 40 (mkCtx (mkSc [lit "v"%string] [] [] []) [lit "l"%string]) tt with
@@ -51,3 +52,61 @@ Example C18_example :
   | _ => False
   end.
 Proof. vm_compute. repeat split; reflexivity. Qed.
+
+(* ---- data never becomes markup (Model/TALOut.v; tied to the real interpreter by Corr/K17.chk_out) ---- *)
+(* text inserted without `structure` is html.escape(v, quote=False): no angle bracket survives and a
+   browser decodes it back to exactly the data *)
+Theorem C18_text_escaped :
+  forall v : str,
+    content_text false v = escape false v /\
+    mem_N LT (content_text false v) = false /\ mem_N GT (content_text false v) = false /\
+    unescape (content_text false v) = v.
+Proof. exact TALOutFacts.text_escaped. Qed.
+Print Assumptions C18_text_escaped.
+
+(* every attribute value is written between double quotes as html.escape(v, quote=True): it contains
+   no double quote and no angle bracket, so it can neither end the attribute nor the tag *)
+Theorem C18_attribute_escaped :
+  forall (name v : str),
+    att_text (name, v) = [SP] ++ name ++ lit "="""%string ++ escape true v ++ lit """"%string /\
+    mem_N DQ (escape true v) = false /\ mem_N LT (escape true v) = false /\ mem_N GT (escape true v) = false /\
+    unescape (escape true v) = v.
+Proof. exact TALOutFacts.attribute_escaped. Qed.
+Print Assumptions C18_attribute_escaped.
+
+(* the attributes of a start tag after tal:attributes come from the template or from the evaluated
+   statements, nowhere else *)
+Theorem C18_attribute_sources :
+  forall evald cur n v, In (n, v) (apply_attributes evald cur) -> In (n, AValue v) evald \/ In (n, v) cur.
+Proof. exact TALOutFacts.apply_attributes_sources. Qed.
+Print Assumptions C18_attribute_sources.
+
+(* ---- python: is never evaluated when Python paths are disabled
+        (Model/TALESEval.v; tied to the real Context.evaluate by Corr/K17.chk_eval, which also compares
+        the number of real eval() calls) ---- *)
+Theorem C18_python_gate :
+  forall (val : Type) (v_false v_true : val) (v_str : str -> val) (is_none is_default truthy : val -> bool)
+         (text_of : val -> str) (traverse : str -> bool -> option val) (py : str -> val) (fuel : nat) (e : str),
+    snd (evaluate val v_false v_true v_str is_none is_default truthy text_of traverse py fuel false e) = 0%nat /\
+    eval_python val v_false py false e = (Some v_false, 0%nat).
+Proof. exact TALESEvalFacts.python_gate_full. Qed.
+Print Assumptions C18_python_gate.
+
+(* ---- a template without TAL/METAL compiles to the single OUTPUT of its own serialisation ---- *)
+Theorem C18_passthrough :
+  forall v es p t m, forallb tal_free_event es = true -> compile v es = COk (p, (t, m)) ->
+    t = [] /\ m = [] /\ (p = [COutput (passthrough_text v es)] \/ (p = [] /\ passthrough_text v es = [])).
+Proof. exact TALCompileFacts.passthrough. Qed.
+Print Assumptions C18_passthrough.
+
+(* the pinned compiler escaped the content of script / style (which html.parser delivers raw and
+   browsers do not decode): not a pass-through; the repaired one writes it back unchanged *)
+Theorem C18_passthrough_cdata_refuted :
+  passthrough_text pinned [EvStart SCRIPT []; EvData (lit "a<b"%string) true; EvEnd SCRIPT] = lit "<script>a&lt;b</script>"%string /\
+  passthrough_text repaired [EvStart SCRIPT []; EvData (lit "a<b"%string) true; EvEnd SCRIPT] = lit "<script>a<b</script>"%string.
+Proof. exact TALCompileFacts.cdata_pinned_vs_repaired. Qed.
+Print Assumptions C18_passthrough_cdata_refuted.
+
+(* Not proved: that the second expansion of a pass-through document is a fixpoint needs a model of
+   html.parser reading back what tag_as_text / escape write; it is checked on the real code for every
+   generated document (harness/c18.py, oracle d). *)
